@@ -80,6 +80,9 @@ func Names(property, tier string) []string {
 		if h.ThoroughOnly && tier != "thorough" {
 			continue
 		}
+		if only := os.Getenv("VERIF_EVENTS_ONLY"); only != "" && only != k { // debugging aid: one harness
+			continue
+		}
 		n = append(n, k)
 	}
 	sort.Strings(n)
@@ -284,7 +287,7 @@ func execute(h Harness, expect []frame, byName []string, shard *shardSpec) (res 
 			names = append(names, e.Name)
 		}
 		if len(names) == 0 {
-			if shard != nil && depth < shard.depth && !shard.mine(res.trace) {
+			if shard != nil && depth <= shard.depth && !shard.mine(res.trace) {
 				res.status = stNotMine
 				res.frames = expectOr(res.frames, expect)
 				return
@@ -417,7 +420,7 @@ func confirm(h Harness, key string, trace []string) bool {
 // Explore enumerates every event order of one harness that belongs to the shard.
 func Explore(h Harness, shard *shardSpec, deadline time.Time) HarnessResult {
 	res := HarnessResult{Harness: h.Name, Outcomes: map[string]int64{}, KeyCounts: map[string]int64{}}
-	decided := map[string]bool{}
+	decided := map[string]int{} // key -> length of the shortest confirmed event order
 	var stack []frame
 	for {
 		r := execute(h, stack, nil, shard)
@@ -446,12 +449,21 @@ func Explore(h Harness, shard *shardSpec, deadline time.Time) HarnessResult {
 			}
 			for _, f := range r.found {
 				res.KeyCounts[f.key]++
-				if decided[f.key] {
+				// keep the shortest confirmed event order per key
+				if best, ok := decided[f.key]; ok && best <= len(r.trace) {
 					continue
 				}
 				if confirm(h, f.key, r.trace) {
-					decided[f.key] = true
-					res.Viol = append(res.Viol, Viol{Key: f.key, What: f.what, Harness: h.Name, Trace: r.trace, At: f.at})
+					if _, ok := decided[f.key]; ok {
+						for i := range res.Viol {
+							if res.Viol[i].Key == f.key {
+								res.Viol[i] = Viol{Key: f.key, What: f.what, Harness: h.Name, Trace: r.trace, At: f.at}
+							}
+						}
+					} else {
+						res.Viol = append(res.Viol, Viol{Key: f.key, What: f.what, Harness: h.Name, Trace: r.trace, At: f.at})
+					}
+					decided[f.key] = len(r.trace)
 				} else {
 					res.Inconclusive++
 				}
@@ -535,7 +547,8 @@ type RunConfig struct {
 }
 
 // Run explores every harness of the property in worker processes and fills the evidence.
-func Run(run *ev.Run, property string, cfg RunConfig) {
+// It returns the merged outcome counts per harness.
+func Run(run *ev.Run, property string, cfg RunConfig) map[string]map[string]int64 {
 	exe, _ := os.Executable()
 	results := make([][]HarnessResult, cfg.Shards)
 	errs := make([]error, cfg.Shards)
@@ -564,6 +577,8 @@ func Run(run *ev.Run, property string, cfg RunConfig) {
 		}
 	}
 	allOutcomes := map[string]bool{}
+	bestViol := map[string]Viol{}
+	merged := map[string]map[string]int64{}
 	names := Names(property, ev.Tier())
 	for _, name := range names {
 		agg := HarnessResult{Harness: name, Outcomes: map[string]int64{}, KeyCounts: map[string]int64{}}
@@ -603,7 +618,10 @@ func Run(run *ev.Run, property string, cfg RunConfig) {
 					agg.KeyCounts[k] += v
 				}
 				for _, v := range r.Viol {
-					run.Violate(ev.Violation{Property: property, Key: v.Key, What: fmt.Sprintf("%s [harness %s, event order %s, oracle failed after event %d]", v.What, v.Harness, strings.Join(v.Trace, " -> "), v.At), Replay: v})
+					if b, ok := bestViol[v.Key]; !ok || len(v.Trace) < len(b.Trace) ||
+						(len(v.Trace) == len(b.Trace) && tieKey(v) < tieKey(b)) {
+						bestViol[v.Key] = v
+					}
 				}
 				if i == 0 {
 					for _, s := range r.Samples {
@@ -647,6 +665,7 @@ func Run(run *ev.Run, property string, cfg RunConfig) {
 		for k := range agg.Outcomes {
 			allOutcomes[name+"/"+k] = true
 		}
+		merged[name] = agg.Outcomes
 		run.Add("executions", agg.Executions)
 		run.Add("events_delivered", agg.Events)
 		run.Add("inconclusive", agg.Inconclusive)
@@ -654,10 +673,35 @@ func Run(run *ev.Run, property string, cfg RunConfig) {
 		run.Add("transitions", agg.Events)
 		run.Add("traces_validated_against_impl", agg.Executions)
 	}
+	var vkeys []string
+	for k := range bestViol {
+		vkeys = append(vkeys, k)
+	}
+	sort.Strings(vkeys)
+	for _, k := range vkeys {
+		v := bestViol[k]
+		run.Violate(ev.Violation{Property: property, Key: v.Key, What: fmt.Sprintf("%s [harness %s, event order: %s; oracle failed after event %d]", v.What, v.Harness, strings.Join(v.Trace, " -> "), v.At), Replay: v})
+	}
+	var perShard []int64
+	for i := range results {
+		var n int64
+		for _, r := range results[i] {
+			n += r.Executions
+		}
+		perShard = append(perShard, n)
+	}
+	run.Set("executions_per_worker", perShard)
 	run.Set("distinct_outcomes", len(allOutcomes))
 	run.Set("harnesses", names)
 	run.Set("exhaustive", exhaustive)
 	run.Set("replays_per_candidate_violation", ReplayTimes)
+	return merged
+}
+
+// tieKey orders equally long counterexamples: fewer error answers first, then harness and event names.
+func tieKey(v Viol) string {
+	j := strings.Join(v.Trace, ";")
+	return fmt.Sprintf("%03d|%s|%s", strings.Count(j, "err"), v.Harness, j)
 }
 
 // Replay re-executes a recorded violation file (replays/<property>/<hash>.json) and prints what it violates.
